@@ -15,7 +15,7 @@ pub fn def() -> CheckDef {
         rule: "case = generated control-flow model (steps, if/else/needs branches in shuffled declaration order, conditional steps/acts, irq/msg acts, depth<=3) x one valuation of (a,b) x seeded scheduler policy; non-trivial = some branch task was `pending` at some point of the run, or the run had >= 2 simultaneously ready tasks at >= 5 scheduling points and an interrupt was answered; distinct = distinct (model+valuation+client hash, schedule hash)",
         level: "exploration",
         assumptions: &["monotone simulated clock", "clients are in-process callers", "no storage errors are injected"],
-        probes: &["probe.branch_pending", "probe.else_after_sibling_decided", "probe.needs_branch"],
+        probes: &["probe.branch_pending", "probe.else_after_sibling_decided", "probe.needs_branch", "probe.lifecycle_hooks"],
         quick_cases: 8000,
         no_shrink: &[],
     }
@@ -31,9 +31,11 @@ fn gen_scenario(rng: &mut vsim::rng::Rng) -> Scenario {
     cfg.p_act_if = *rng.pick(&[0, 150, 300]);
     cfg.p_empty_branch = *rng.pick(&[0, 150, 400]);
     cfg.max_steps = 1 + rng.below(4) as u32;
-    // lifecycle-hook acts are not generated here: an act started by a hook can be the last thing its
-    // parent waits for and nobody reviews the parent then (recorded finding C01-hook-act-strands-*,
-    // see known_findings.jsonl); the quantifier of C01 does not include setup/hook acts
+    // a fifth of the programs with lifecycle-hook acts on workflow and steps: an act started by a hook can be the
+    // last thing its step waits for (the repaired finding C01-hook-act-strands-*)
+    if rng.below(5) == 0 {
+        cfg.p_hooks = *rng.pick(&[200, 500]);
+    }
     let mut g = Gen::new(rng, cfg);
     let m = g.workflow("m");
     let mut sc = Scenario::default();
@@ -62,6 +64,13 @@ pub fn case(ctx: &mut CaseCtx) -> CaseOut {
     let pending = rec.trans.iter().any(|t| t.kind == "branch" && t.new == "pending");
     if pending {
         ctx.count("probe.branch_pending", 1);
+    }
+    {
+        let mut hooks = !sc.models[0].setup.is_empty();
+        sc.models[0].visit_steps(&mut |s| hooks |= !s.setup.is_empty());
+        if hooks {
+            ctx.count("probe.lifecycle_hooks", 1);
+        }
     }
     let roles = imgx::branch_roles(&sc.models);
     if roles.values().any(|r| r == "needs") {
